@@ -229,6 +229,15 @@ def gen_cases(ctx):
     for i in range(250 if ctx.quick() else 4000):
         v = '1.1' if i % 2 else '1.0'
         cases.append(make_case(cm.random_model(rng, version=v, max_leaves=5), v))
+    # a repeated choice with a branch that hides a name between mandatory particles inside an optional nested group, and
+    # another branch that starts with that name: ((c, (a|b)?, d) | (a, h))+ and its neighbours
+    tmpl = [(pre, io, post, oo, second) for pre in (True, False) for io in [(0, 1), (1, 1), (0, 2)] for post in (True, False)
+            for oo in [(1, None), (1, 2), (0, None), (1, 1)] for second in ('a', 'b', 'c')]
+    for pre, io, post, oo, second in (tmpl if not ctx.quick() else rng.sample(tmpl, 50)):
+        b1 = ([cm.E('c')] if pre else []) + [cm.G('choice', [cm.E('a'), cm.E('b')], io)] + ([cm.E('d')] if post else [])
+        m = cm.G('choice', [cm.G('seq', b1, (1, 1)), cm.G('seq', [cm.E(second), cm.E('h')], (1, 1))], oo)
+        for v in ('1.0', '1.1'):
+            cases.append(make_case(m, v))
     # wildcards declared in schema documents with different target namespaces (extension of an imported base type)
     forms = ['##any', '##other', '##local', '##targetNamespace', cm.TNS, cm.ONS, cm.PNS, '%s %s' % (cm.ONS, cm.PNS), '##local %s' % cm.TNS]
     cross = [(a, o1, b, o2) for a in forms for b in forms for o1 in [(0, 1), (0, None), (1, 1)] for o2 in [(1, 1), (0, 1), (0, None)]]
